@@ -966,10 +966,8 @@ func (e *Engine) timeStampFilterTarFile(start, end time.Time) func(f os.FileInfo
 			return err
 		}
 
-		// Grab the tombstone file if one exists.
-		if ts := r.TombstoneStats(); ts.TombstoneExists {
-			return intar.StreamFile(fi, shardRelativePath, filepath.Base(ts.Path), tw)
-		}
+		// A tombstone file next to this TSM file is streamed when the walk reaches it,
+		// like every other file that is not a TSM file.
 
 		min, max := r.TimeRange()
 		stun := start.UnixNano()
